@@ -196,6 +196,12 @@ StringDictionaryHTFC::StringDictionaryHTFC(IteratorDictString *it,
                 size_t xptr = VByte::decode(&value, &(dict->textStrings[ptr]));
 
                 for (uint i = 0; i < xptr; i++) {
+                  if (ptr + read >= dict->bytesStrings) {
+                    // (the end of the dictionary: only zero padding follows)
+                    codeSubstr = (codeSubstr << (TABLEBITSO - ptrSubstr));
+                    ptrSubstr = TABLEBITSO;
+                    break;
+                  }
                   uint symbol = dict->textStrings[ptr + read];
                   read++;
                   uint bits = codewords[(int)symbol].bits;
@@ -218,6 +224,12 @@ StringDictionaryHTFC::StringDictionaryHTFC(IteratorDictString *it,
               }
 
               while (true) {
+                if (ptr + read >= dict->bytesStrings) {
+                  // (the end of the dictionary: only zero padding follows)
+                  codeSubstr = (codeSubstr << (TABLEBITSO - ptrSubstr));
+                  ptrSubstr = TABLEBITSO;
+                  break;
+                }
                 uint symbol = dict->textStrings[ptr + read];
                 read++;
                 uint bits = codewords[(int)symbol].bits;
